@@ -475,7 +475,15 @@ let eval (x : sx) : sx =
        | Ok ls -> L (A "ok" :: List.map (fun l -> L (List.map sf l)) ls)
        | Err k -> rerr k)
   | L [A "convert1"; tp; t] -> rfloats (convert fnum (seconds_env fnum (penv tp)) Z0 (tree t))
-  | L [A "metrize"; t] -> rfloats (metrize2 fnum (ttree t))   (* the one-trajectory model, else the step model *)
+  | L [A "metrize"; t] ->
+      (* the one-trajectory model, else the step model; where both decide (constants, one step trajectory per path) they
+         must agree (theorems metrize_steps_constant / integ_steps_is_integrate over the reals; here in floats) *)
+      let tt = ttree t in
+      let close a b = Float.abs (a -. b) <= 1e-9 *. Float.max 1.0 (Float.abs a) in
+      (match metrize fnum tt, metrize_steps fnum tt with
+       | Ok a, Ok b when not (List.length a = List.length b && List.for_all2 close a b) ->
+           L [A "driver-error"; A "the-step-model-disagrees-with-the-one-trajectory-model"]
+       | _ -> rfloats (metrize2 fnum tt))
   | L [A "jointempo"; _; ta; da; tb; _] ->
       let flex x = (match x with L (A "T" :: _) -> true | _ -> false) in
       renv (join_tempo fnum (flex ta) (flex tb) (penv ta) (zi da) (penv tb))
